@@ -38,7 +38,7 @@ Reach(todo, seen) ==
         IN Reach((todo \ {x}) \cup ({ks[i] : i \in DOMAIN ks} \ (seen \cup {x})), seen \cup {x})
 \* the machine models memory inputs (plain and with the depth counter), the action families 0..7 and the operators above
 Supported(ev) ==
-   /\ ev.cls \in {0, 1} /\ ev.xt \in {0, 3, 4} /\ ev.af \in 0..7
+   /\ ev.cls \in {0, 1} /\ ev.xt \in {0, 3, 4, 5} /\ ev.af \in 0..7
    /\ \A x \in Reach({ev.g}, {}) :
          /\ (TableNodes[x].iop \in MachineOps \/ M!IsAtom(x))
          /\ (TableNodes[x].iop \in {"strict", "star_strict"} => M!RestOf(TableNodes[x].ikids) # {})
